@@ -129,6 +129,18 @@ func runC11(cfg runCfg) error {
 		if err != nil {
 			return err
 		}
+		// clients repeat their queries: every text that is sent during the change has been answered once before it, by the
+		// old generation (anything the gateway keeps per query text is then in place when the generations change)
+		for i, q := range reqs {
+			text := q.q
+			if kind == "swap_between_validation_and_execution" && i%2 == 0 {
+				text = "#park\n" + text
+			}
+			if r.Intn(4) > 0 {
+				_ = solo(gw, rq{q: text, vars: q.vars})
+				sum.Features["text_seen_before_the_change"]++
+			}
+		}
 		release := make(chan struct{})
 		parked := make(chan struct{}, len(reqs))
 		if kind == "swap_between_validation_and_execution" {
@@ -318,6 +330,33 @@ func runC11(cfg runCfg) error {
 		if hung || refreshHung {
 			sum.Features["stopped_after_a_hang"]++
 			break // one deadlock is a finding; the remaining cases would each wait for their timeouts
+		}
+		// the same texts once more when the change is over: now the answer is the new generation's (or a clean error),
+		// whatever the gateway remembers of the text from before
+		if !hung {
+			for i := range reqs {
+				text := reqs[i].q
+				if kind == "swap_between_validation_and_execution" && i%2 == 0 {
+					text = "#park\n" + text
+				}
+				late := solo(gw, rq{q: text, vars: reqs[i].vars})
+				cname := fmt.Sprintf("%s-%d-late", name, i)
+				okNew := respKey(late) == respKey(news[i]) || cleanError(late)
+				if refreshErr != nil { // the change was refused: the old generation stays in effect
+					okNew = okNew || respKey(late) == respKey(olds[i])
+				}
+				sum.GoOracle = append(sum.GoOracle,
+					oracleResult{Case: cname, Component: "prop.c11.terminates", OK: true},
+					oracleResult{Case: cname, Component: "prop.c11.one_generation_or_clean_error", OK: okNew,
+						Detail: fmt.Sprintf("sent after the change was complete: response %.500s\n new generation alone: %.500s", respKey(late), respKey(news[i]))},
+					oracleResult{Case: cname, Component: "prop.c11.no_internal_error", OK: !strings.Contains(late.Body, "internal system error") && late.Status != 500, Detail: late.Body},
+					oracleResult{Case: cname, Component: "guard.c11_service_list_not_replaced", OK: kind != "list_replaced"})
+				w.add(cname, fmt.Sprintf("{| rc_query := %d; rc_after_swap := false; rc_matches_old := %s; rc_matches_new := %s; rc_clean_error := %s |}",
+					i, cbool(refreshErr != nil && respKey(late) == respKey(olds[i])), cbool(respKey(late) == respKey(news[i])), cbool(cleanError(late))))
+				sum.CaseInputs[cname] = map[string]interface{}{"kind": kind, "service": x.Name, "dropped_root_field": dropped, "query": text, "variables": reqs[i].vars,
+					"history": "the same text was sent before and during the change; this request was sent after the change was complete", "response": respKey(late)}
+				sum.Features["sent_after_the_change"]++
+			}
 		}
 		if differ {
 			distinct++
